@@ -18,7 +18,7 @@ V_TEXT = ("V (36 values) = {0, 1, -1, 2^31-1, 2^31, -2^31, 2^32, 2^32+1, 2^63-1,
           "nolong = V minus the 65600-byte string; l4 = {0,\"a\",65600-byte string,({1,\"a\"})}; "
           "s16 = {0,second live object,-1,2^31,2^63-1,-2^63,-1.5,\"a\",taint,65600-byte,({1,\"a\"}),([\"a\":1]),4-byte buffer,class,local funptr,this_object()}; "
           "s12 = {0,1,-1,2^31,2^63-1,-2^63,\"a\",taint,65600-byte,({1,\"a\"}),([\"a\":1]),this_object()}; s8 = {0,-1,2^63-1,\"a\",taint,({1,\"a\"}),([\"a\":1]),this_object()}; "
-          "s6 = {0,-1,2^63-1,malloc'd \"abc\",({1,\"a\"}),4-byte buffer}")
+          "s6 = {0,-1,2^63-1,malloc'd \"abc\",({1,\"a\"}),4-byte buffer}; s6o = s6 with this_object() instead of the buffer")
 
 # alphabets per kind (op/ef) and arity 0..4
 TIERS = {
@@ -26,7 +26,7 @@ TIERS = {
         # arity 2 = (V minus the 65600-byte string)^2  U  {0,"a",65600-byte string,({1,"a"})}^2 : printing that string in a
         # "Bad argument" message costs 0.2-0.5 s of CPU under ASan (the driver grows its outbuf one byte at a time)
         ("main", dict(op0="full", op1="full", op2="nolong", op3="s12", op4="s6",
-                      ef0="full", ef1="full", ef2="nolong", ef3="s8", ef4="s6")),
+                      ef0="full", ef1="full", ef2="nolong", ef3="s8", ef4="s6o")),
         ("long2", dict(op0="none", op1="none", op2="l4", op3="none", op4="none",
                        ef0="none", ef1="none", ef2="l4", ef3="none", ef4="none")),
     ],
@@ -115,7 +115,7 @@ def run(ck):
                   "master: valid_read/valid_write/valid_seteuid allow, valid_socket refuses; no interactive user exists; MaxEvaluationCost 200000",
                   "efuns not called: " + ", ".join(x[0] for x in excluded),
                   "signed-overflow / shift UBSan checks are off (the property does not list them); SIGFPE from integer division is reported because it terminates the driver",
-                  "allocations above 3 GiB are refused by the sanitizer allocator (max_allocation_size_mb), quarantine is 16 MiB per process",
+                  "a single allocation above 1 GiB is refused by the sanitizer allocator (max_allocation_size_mb=1024): the driver then exits through xalloc()/fatal(), which is reported as driver-exit:...:xalloc (a one-line LPC that makes the driver request > 1 GiB); quarantine is 16 MiB per process",
                   "the destructed-object value is a live object that the H1 hook destructs after the arguments were pushed (simple forms) or that is destructed before the call (other forms)",
               ])
 
